@@ -845,12 +845,10 @@ Section Store.
     record_fquestion q cd client id s.
 
   (* Cache.additionalAnswer over a Queryer that answers from the store (Store.Get): after an alias
-     hit, the target is looked up with the client's type and CD — and with class IN whatever the
-     client's class was: the sub-query is built by dns.Msg.SetQuestion(target, qtype), which sets
-     Qclass = ClassINET (finding msg-chase-subquery-class-in).  The loop goes on while the hop is
-     itself an alias without the terminal record (at most [fuel] sub-queries) *)
-  Definition class_inet : N := 1.
-  Fixpoint msg_chase (s : store) (fuel : nat) (qtype : N) (cd : bool) (e : entry) : list entry :=
+     hit, the target is looked up with the CLIENT's type, class and CD (the sub-query is built by
+     SetQuestion(target, qtype) and then given the client's class — fix f46047f); the loop goes on
+     while the hop is itself an alias without the terminal record (at most [fuel] sub-queries) *)
+  Fixpoint msg_chase (s : store) (fuel : nat) (qtype qclass : N) (cd : bool) (e : entry) : list entry :=
     match fuel with
     | O => []
     | S f =>
@@ -860,8 +858,8 @@ Section Store.
             match option_map present (parse_wire tw) with
             | None => []
             | Some tn =>
-                match store_lookup s (mk_q tn qtype class_inet) cd with
-                | Some nxt => nxt :: msg_chase s f qtype cd nxt
+                match store_lookup s (mk_q tn qtype qclass) cd with
+                | Some nxt => nxt :: msg_chase s f qtype qclass cd nxt
                 | None => []
                 end
             end
